@@ -300,8 +300,15 @@ func emitBurst(out *Out, r *Rng, goroutines int) {
 	o.docs[gw+"/ipfs/QmBurst/a.json"] = &orgEntry{ver: 8, policy: "no-store"}
 	o.docs[gw+"/ipfs/QmBurst/b.json"] = &orgEntry{ver: 9, policy: "max-age=3600"}
 	loader := loaders.NewDocumentLoader(nil, gw, loaders.WithHTTPClient(&http.Client{Transport: slowOrigin{o, time.Duration(1+r.Intn(3)) * time.Millisecond}}))
-	urls := []string{page, page2, "ipfs://QmBurst/a.json", "ipfs://QmBurst/b.json", doc}
-	want := map[string]int{page: 7, page2: 7, "ipfs://QmBurst/a.json": 8, "ipfs://QmBurst/b.json": 9, doc: 7}
+	// ... and URLs whose load fails, each in its own way: every one of the concurrent loads reports the error
+	bad500, bad404, badNet, badBody, badPage := "https://ctx.example/e500", "https://ctx.example/e404", "https://ctx.example/enet", "https://ctx.example/ebody", "https://ctx.example/epage"
+	o.docs[bad500] = &orgEntry{fail: "500"}
+	o.docs[badNet] = &orgEntry{fail: "transport"}
+	o.docs[badBody] = &orgEntry{fail: "garbage"}
+	o.docs[badPage] = &orgEntry{alt: bad404, policy: "max-age=60"}
+	urls := []string{page, page2, "ipfs://QmBurst/a.json", "ipfs://QmBurst/b.json", doc, bad500, bad404, badNet, badBody, badPage, "ipfs://QmBurst/missing.json"}
+	want := map[string]int{page: 7, page2: 7, "ipfs://QmBurst/a.json": 8, "ipfs://QmBurst/b.json": 9, doc: 7,
+		bad500: -1, bad404: -1, badNet: -1, badBody: -1, badPage: -1, "ipfs://QmBurst/missing.json": -1}
 	var mu sync.Mutex
 	var why []string
 	okN := 0
@@ -314,10 +321,13 @@ func emitBurst(out *Out, r *Rng, goroutines int) {
 			for k := 0; k < 3; k++ {
 				d, err := loader.LoadDocument(u)
 				got := -1
-				if err == nil {
+				if err == nil && d != nil {
 					got = docVersion(d)
 				}
 				mu.Lock()
+				if err == nil && d == nil && len(why) < 4 {
+					why = append(why, fmt.Sprintf("burst of %d goroutines: load of %s returns no document and no error", goroutines, u))
+				}
 				if got != want[u] && len(why) < 4 {
 					why = append(why, fmt.Sprintf("burst of %d goroutines: load of %s gives %d (%v), sequentially %d", goroutines, u, got, err, want[u]))
 				}
